@@ -9,8 +9,8 @@ checks = []
 have = set()
 for d in sorted(glob.glob(f'{R}/engine/checks/c*/')):
     mf = os.path.join(d, 'check.json')
-    if not os.path.exists(mf):
-        continue
+    if not os.path.exists(mf) or not os.path.exists(os.path.join(d, 'READY')):
+        continue  # READY is created by the coordinator after review
     m = json.load(open(mf))
     pid = m['property_id']
     have.add(pid)
